@@ -13,8 +13,13 @@
 (*   C16.ProxyLiveReaped        ... and that was done by a monitor pass    *)
 (*   C16.ProxyIsolation         a request about one session changed the    *)
 (*        registration, pubsubs or heartbeat of another session            *)
-(*   C16.ProxyLookup            lookup of a live session fails or hands    *)
-(*        out other pubsub addresses than register returned                *)
+(*   C16.ProxyLookup            register / lookup of a live session fails  *)
+(*        or hands out other endpoints than those of the session's own     *)
+(*        live channel worker (cfgok, judged by the rig against the worker *)
+(*        it spawned for that registration) - e.g. the late report of a    *)
+(*        worker that was given up ('worker startup failed') and killed    *)
+(*   Register events carry mode: the spawned worker reports "intime",      *)
+(*   "late" (Report event, after it was killed) or "never".                *)
 (*                                                                         *)
 (* "M." clauses: the step differs from the design model ProxySvc in a way  *)
 (* the property does not care about.                                       *)
@@ -72,7 +77,8 @@ Step ==
      /\ prev' = st /\ ghb' = g2 /\ wanted' = w2
      /\ errs' = errs \cup live
           \cup (CASE e.op = "Register" ->
-                       iso \cup E(e.ok = ~prev[k].reg, "M.ProxyRegisterResult")
+                       iso \cup E(e.ok = (~prev[k].reg /\ e.mode = "intime"), "M.ProxyRegisterResult")
+                           \cup E(~e.ok \/ e.cfgok, "C16.ProxyLookup")
                            \cup E(~e.ok \/ (st[k].reg /\ st[k].up /\ st[k].hb = e.now), "M.ProxyRegister")
                   [] e.op = "Unregister" ->
                        iso \cup E(~st[k].reg /\ ~st[k].up, "M.ProxyUnregister")
@@ -83,6 +89,9 @@ Step ==
                        iso \cup E(Same(st[k], prev[k]), "M.ProxyLookupChanges")
                            \cup (IF k \in wanted THEN E(e.ok /\ e.cfgok, "C16.ProxyLookup")
                                                  ELSE E(e.ok = prev[k].reg, "M.ProxyLookupResult"))
+                  [] e.op = "Report" ->
+                       \* the late report of a dead worker concerns nobody
+                       UNION {E(Same(st[i], prev[i]), "C16.ProxyIsolation") : i \in Idx}
                   [] e.op = "Tick" ->
                        UNION {E(Same(st[i], prev[i]), "M.ProxyTickChanges") : i \in Idx}
                   [] e.op = "Monitor" ->
